@@ -313,30 +313,48 @@ func blockBraceOnSameLine(c *Ctx, rule string) {
 			}
 		}
 	}
-	var components func(e ast.Expr, depth int) []string
-	components = func(e ast.Expr, depth int) []string {
+	// alternatives(e): the sequences of primitive parsers e can match, alternatives (parse.Any) expanded
+	var alternatives func(e ast.Expr, depth int) [][]string
+	alternatives = func(e ast.Expr, depth int) [][]string {
 		e = ast.Unparen(e)
 		if id, ok := e.(*ast.Ident); ok {
-			if in, ok := inits[info.ObjectOf(id)]; ok && depth < 6 {
-				sub := components(in, depth+1)
-				if len(sub) > 0 {
+			if in, ok := inits[info.ObjectOf(id)]; ok && depth < 8 {
+				if sub := alternatives(in, depth+1); len(sub) > 0 {
 					return sub
 				}
 			}
-			return []string{id.Name}
+			return [][]string{{id.Name}}
 		}
 		if call, ok := e.(*ast.CallExpr); ok {
 			name := types.ExprString(call.Fun)
-			if strings.HasSuffix(name, "StringFrom") || strings.HasSuffix(name, ".All") || strings.HasSuffix(name, "SequenceOf2") || strings.HasSuffix(name, "SequenceOf3") {
-				var out []string
+			switch {
+			case strings.HasSuffix(name, ".Any"):
+				var out [][]string
 				for _, a := range call.Args {
-					out = append(out, components(a, depth+1)...)
+					out = append(out, alternatives(a, depth+1)...)
 				}
 				return out
+			case strings.HasSuffix(name, "StringFrom") || strings.HasSuffix(name, ".All") || strings.HasSuffix(name, "SequenceOf2") || strings.HasSuffix(name, "SequenceOf3"):
+				cur := [][]string{{}}
+				for _, a := range call.Args {
+					var nxt [][]string
+					for _, pre := range cur {
+						for _, alt := range alternatives(a, depth+1) {
+							nxt = append(nxt, append(append([]string{}, pre...), alt...))
+						}
+					}
+					if len(nxt) > 256 {
+						nxt = nxt[:256]
+					}
+					cur = nxt
+				}
+				return cur
+			case strings.HasSuffix(name, ".Optional") && len(call.Args) == 1:
+				return append([][]string{{}}, alternatives(call.Args[0], depth+1)...)
 			}
-			return []string{types.ExprString(call)}
+			return [][]string{{types.ExprString(call)}}
 		}
-		return []string{types.ExprString(e)}
+		return [][]string{{types.ExprString(e)}}
 	}
 	n := 0
 	for _, fd := range allFuncDecls(pp) {
@@ -361,14 +379,17 @@ func blockBraceOnSameLine(c *Ctx, rule string) {
 				return true
 			}
 			n++
-			comps := components(se.X, 0)
+			var comps []string
 			bad := ""
-			for _, cpt := range comps {
-				if strings.Contains(cpt, "openBrace") || cpt == "'{'" || cpt == `"{"` {
-					break
-				}
-				if strings.Contains(cpt, "Whitespace") || strings.Contains(cpt, "NewLine") {
-					bad = cpt
+			for _, alt := range alternatives(se.X, 0) {
+				comps = append(comps, "["+strings.Join(alt, " ")+"]")
+				for _, cpt := range alt {
+					if cpt == "openBrace" || cpt == "'{'" || cpt == `"{"` || strings.HasPrefix(cpt, "parse.String(\"{") || strings.HasPrefix(cpt, "parse.Rune('{") {
+						break
+					}
+					if strings.Contains(cpt, "Whitespace") || strings.Contains(cpt, "NewLine") || strings.Contains(cpt, "\\n") {
+						bad = cpt
+					}
 				}
 			}
 			c.check(bad == "", rule, funcKey(pp, fd)+"|block-brace-on-the-call-line", c.pos(as.Pos()), "the opening brace of a child block is looked for after spaces/tabs only: "+strings.Join(comps, " "),
